@@ -133,6 +133,26 @@ def gen_case(ch: Chooser, excl=()):
             b.refs.append({"scope": [mn], "ifbody": None, "slot": "final", "at": f"{tf['name']}%omega", "name": "omega",
                            "expect": f"{mn}/omega", "multi": True, "fixed": True})
             b.feats.add("final")
+        # a generic binding inherited by a child type that overrides the specific binding: each type's generic
+        # resolves to that type's own binding
+        if ch.bool(1, 3) and "generic_binding_inherit" not in b.excl:
+            tp, tc = b.mktype(f"gpar_{mn}"), b.mktype(f"gchi_{mn}")
+            tc["extends"] = tp["name"]
+            sp, sc = f"gpar_area_{mn}", f"gchi_area_{mn}"
+            tp["binds"] = [{"name": "garea", "target": sp, "generic": False, "deferred": False, "iface": None, "attrs": [],
+                            "access": None, "doc": None},
+                           {"generic": True, "name": "gmeasure", "targets": ["garea"], "access": None, "doc": None}]
+            tc["binds"] = [{"name": "garea", "target": sc, "generic": False, "deferred": False, "iface": None, "attrs": [],
+                            "access": None, "doc": None}]
+            m["decls"] += [tp, tc]
+            for sub, ty in ((sp, tp), (sc, tc)):
+                arg = "gself"          # (an overriding procedure must name its dummy arguments like the overridden one)
+                m["procs"].append(b.mksub(sub, args=[arg], decls=[_var(arg, {"base": "class", "proto": ty["name"]}, intent="in")]))
+            b.refs.append({"scope": [mn], "ifbody": None, "slot": "gbinding", "at": f"{tp['name']}%gmeasure%garea", "name": "garea",
+                           "expect": f"{mn}/{sp}", "multi": True, "fixed": True})
+            b.refs.append({"scope": [mn], "ifbody": None, "slot": "gbinding", "at": f"{tc['name']}%gmeasure%garea", "name": "garea",
+                           "expect": f"{mn}/{sc}", "multi": True, "fixed": True})
+            b.feats.add("inherited-generic-binding")
         # a structure constructor: generic interface named like a type of this module
         for t in TYPES:
             if any(d["d"] == "type" and d["name"] == t for d in m["decls"]):
